@@ -1647,8 +1647,8 @@ func propC10(r *Run, w *World) {
 			if fv == x.fTimeout {
 				want = x.newEventList.Params[1]
 			}
-			r.Check(x.w.ownedBy(a.Fn, x.newEventList) && a.Kind == "store" && a.Val == ssa.Value(want), fv.Name()+" written in "+fnName(a.Fn), a.Instr.Pos(),
-				"constructor stores its parameter", fv.Name()+" is written outside the constructor or not from its parameter")
+			r.Check(x.w.ownedBy(a.Fn, x.newEventList) && a.Kind == "store" && a.Val == ssa.Value(want), fieldName(fv)+" written in "+fnName(a.Fn), a.Instr.Pos(),
+				"constructor stores its parameter", fieldName(fv)+" is written outside the constructor or not from its parameter")
 		}
 	}
 	for _, s := range w.CallSites(x.newEventList) {
@@ -1940,7 +1940,7 @@ func propC11(r *Run, w *World) {
 				if a.Kind == "valarg" || a.Kind == "reslice" || a.Kind == "alias" || a.Kind == "returned" {
 					continue // the load itself is already an access
 				}
-				key := fmt.Sprintf("%s.%s %s in %s", T.Obj().Name(), fv.Name(), a.Kind, fnName(a.Fn))
+				key := fmt.Sprintf("%s.%s %s in %s", T.Obj().Name(), fieldName(fv), a.Kind, fnName(a.Fn))
 				held := li.Held(a.Instr)[class]
 				switch {
 				case held:
@@ -1952,7 +1952,7 @@ func propC11(r *Run, w *World) {
 				case x.w.ownedBy(a.Fn, x.callback) && a.Kind == "load" && fv == x.fMsgs:
 					r.OK(key, a.Instr.Pos(), "load of msgs from an event already detached by CleanUp/Clear (C01.R4/R5/R6)")
 				default:
-					r.Fail(key, a.Instr.Pos(), fmt.Sprintf("%s.%s is accessed (%s) without the eventList mutex (held: %s)", T.Obj().Name(), fv.Name(), a.Kind, li.Held(a.Instr)))
+					r.Fail(key, a.Instr.Pos(), fmt.Sprintf("%s.%s is accessed (%s) without the eventList mutex (held: %s)", T.Obj().Name(), fieldName(fv), a.Kind, li.Held(a.Instr)))
 				}
 			}
 		}
@@ -2069,12 +2069,12 @@ func propC11(r *Run, w *World) {
 	r.Rule("C11.R5", "immutable after construction: Reassembler.list/.stream and eventList.maxSize/.timeout are written only by the constructors", 4)
 	for _, fv := range []*types.Var{x.fList, x.fStream} {
 		for _, a := range Writes(w.FieldAccesses(fv)) {
-			r.Check(x.w.ownedBy(a.Fn, x.newReassembler) && a.Kind == "store", fv.Name()+" written in "+fnName(a.Fn), a.Instr.Pos(), "", "Reassembler."+fv.Name()+" is written after construction")
+			r.Check(x.w.ownedBy(a.Fn, x.newReassembler) && a.Kind == "store", fieldName(fv)+" written in "+fnName(a.Fn), a.Instr.Pos(), "", "Reassembler."+fieldName(fv)+" is written after construction")
 		}
 	}
 	for _, fv := range []*types.Var{x.fMaxSize, x.fTimeout} {
 		for _, a := range Writes(w.FieldAccesses(fv)) {
-			r.Check(x.w.ownedBy(a.Fn, x.newEventList) && a.Kind == "store", fv.Name()+" written in "+fnName(a.Fn), a.Instr.Pos(), "", "eventList."+fv.Name()+" is written after construction")
+			r.Check(x.w.ownedBy(a.Fn, x.newEventList) && a.Kind == "store", fieldName(fv)+" written in "+fnName(a.Fn), a.Instr.Pos(), "", "eventList."+fieldName(fv)+" is written after construction")
 		}
 	}
 }
